@@ -1123,12 +1123,33 @@ def c11(r):
               "lunar date's exact pillars selected by the day-boundary convention; deprecated arrays) and 37 eight-character attributes with their "
               "defining pillars. The driver evaluates exactly those expressions on %s moments x 2 conventions (boundary heavy: Jie instants +-1 s, "
               "both solstice days, 20-31 December, 23:00-23:59, 00:00-00:59, 12 boundary years) and TLC compares each pair; observations are grouped "
-              "by (attribute, defining inputs) over the run and TLC requires one value per group. Distinct non-trivial case = distinct (moment, convention)." )
+              "by (attribute, defining inputs) over the run and TLC requires one value per group. Extension (EXT.bazi.*, reported, never a verdict): "
+              "BaZiRules.tla states what those attributes are - elements, ten gods, hidden stems, twelve life stages, xun and empty branches, nayin, "
+              "conception pillars - from the five-element relations; TLC model-checks the laws of the rules (MC_BaZiRules, 1 200 states) and "
+              "recomputes every attribute of every chart seen over the full grid (100 stem pairs, 120 stem-branch pairs, 60 pillars). "
+              "Distinct non-trivial case = distinct (moment, convention)." )
     r.build()
     ef, ff, ex, fd = _write_tables(r, ["Equiv", "SectEquiv", "BaZiArrays"], "FD11")
     r.rule = r.rule % (len(ex) // 2, "40 000" if thorough else "4 000")
     ch = r.drive("c11moments", shards=4, args={"exprs": ef, "fd": ff, "moments": 40000 if thorough else 4000, "prop": "C11"}, maxlines=600)
     r.validate("Trace_Routes", ch)
+    # extension: what the derived attributes ARE (BaZiRules.tla, from the five-element relations), model-checked for
+    # its own laws and applied to every attribute of every chart seen; EXT.* names, never a verdict
+    r.mc("MC_BaZiRules", "MC_BaZiRules")
+    ch_b = r.drive("c11bazi", shards=1, args={"moments": 20000 if thorough else 3000}, maxlines=0)
+    r.validate("Trace_Routes", ch_b)
+    def bz_tg(e):
+        e["tg"][7][2] = "正官" if e["tg"][7][2] != "正官" else "七杀"
+        return True
+    def bz_ds(e):
+        e["ds"][11][2] = "墓" if e["ds"][11][2] != "墓" else "绝"
+        return True
+    def bz_hg(e):
+        e["hg"][4][1] = list(reversed(e["hg"][4][1]))
+        return True
+    r.negctl("Trace_Routes", ch_b[0], {"BzRules": [(bz_tg, "EXT.bazi.ten-god-of-stem")]}, per_kind=1)
+    r.negctl("Trace_Routes", ch_b[0], {"BzRules": [(bz_ds, "EXT.bazi.life-stage")]}, per_kind=1)
+    r.negctl("Trace_Routes", ch_b[0], {"BzRules": [(bz_hg, "EXT.bazi.hidden-stems")]}, per_kind=1)
     r.sample_from(ch[:1])
     r.cov["samples"] = [s[:500] for s in r.cov["samples"]]
     n = g = 0
